@@ -195,11 +195,19 @@ impl<'a> Lexer<'a> {
                 self.advance();
             }
             if self.peek() == Some('\\') {
-                return Err((ParseErrorKind::Unsupported, "unicode escape in identifier".into()));
+                // only `\uXXXX` / `\u{...}` can continue an identifier; any other backslash is a
+                // plain syntax error
+                if self.src.get(self.pos + 1..).is_some_and(|r| r.starts_with('u')) {
+                    return Err((ParseErrorKind::Unsupported, "unicode escape in identifier".into()));
+                }
+                return Err((ParseErrorKind::Syntax, "stray backslash".into()));
             }
             return Ok(Tok::Ident(self.src.get(start..self.pos).unwrap_or("").to_string()));
         }
         if c == '\\' {
+            if !self.src.get(self.pos + 1..).is_some_and(|r| r.starts_with('u')) {
+                return Err((ParseErrorKind::Syntax, "stray backslash".into()));
+            }
             return Err((ParseErrorKind::Unsupported, "unicode escape in identifier".into()));
         }
         if c.is_ascii_digit() || (c == '.' && self.peek_at(1).is_some_and(|d| d.is_ascii_digit())) {
